@@ -352,7 +352,8 @@ func allSchedules(symbols []string, maxLen int) [][]string {
 	return out
 }
 
-var schedules = allSchedules([]string{"self", "X", "Y"}, 4)
+// "X2" re-binds namespace "X" to another scope with the same IDs (other objects)
+var schedules = allSchedules([]string{"self", "X", "Y", "X2"}, 4)
 var schedCursor int
 
 // universe of link trees: returns the trees and, for the tree under test, the path of the embedded
@@ -377,6 +378,8 @@ func genLinkUniverse(g *hx.Gen) (trees []namedTree, embedAt string) {
 	lg.nss = []string{"Y"}
 	lg.extIDs["Y"] = ids(yx)
 	x := lg.scope(1, nil, true)
+	// X2: what namespace "X" is re-bound to by some schedules: same IDs, its own objects
+	x2 := lg.scopeWithIDs(ids(x), 1, nil, true)
 	// S: self, X, Y (= Y)
 	lg.nss = []string{"X", "Y", "X"}
 	lg.extIDs["X"] = ids(x)
@@ -408,7 +411,7 @@ func genLinkUniverse(g *hx.Gen) (trees []namedTree, embedAt string) {
 		}
 		main = o
 	}
-	return []namedTree{{"", main}, {"X", x}, {"Y", y}, {"YX", yx}}, embedAt
+	return []namedTree{{"", main}, {"X", x}, {"Y", y}, {"YX", yx}, {"X2", x2}}, embedAt
 }
 
 func schedSteps(tree string, at string, sched []string) [][]string {
@@ -419,6 +422,10 @@ func schedSteps(tree string, at string, sched []string) [][]string {
 			out = append(out, []string{"self", tree})
 		case sy == "self":
 			out = append(out, []string{"applyAt", tree, at, "", ""})
+		case at == "" && sy == "X2":
+			out = append(out, []string{"apply", tree, "X", "X2"})
+		case sy == "X2":
+			out = append(out, []string{"applyAt", tree, at, "X", "X2"})
 		case at == "":
 			out = append(out, []string{"apply", tree, sy, sy})
 		default:
@@ -435,7 +442,8 @@ func groupSched(s *sink, g *hx.Gen) {
 		sched := schedules[schedCursor%len(schedules)]
 		schedCursor++
 		c := &progCase{Op: "LINKP", Trees: trees}
-		c.Steps = [][]string{{"build", "YX"}, {"build", "Y"}, {"build", "X"}, {"apply", "X", "Y", "YX"}}
+		c.Steps = [][]string{{"build", "YX"}, {"build", "Y"}, {"build", "X"}, {"apply", "X", "Y", "YX"},
+			{"build", "X2"}, {"apply", "X2", "Y", "YX"}}
 		if r.Intn(4) == 0 {
 			// X is re-applied / re-linked on its own as well
 			c.Steps = append(c.Steps, []string{"self", "X"}, []string{"apply", "X", "Y", "YX"})
@@ -656,7 +664,10 @@ func (bg *nsBehGen) scope(depth int) *hx.Ty {
 	r := bg.g.R
 	ids := append([]string{}, behIDs...)
 	r.Shuffle(len(ids), func(i, j int) { ids[i], ids[j] = ids[j], ids[i] })
-	ids = ids[:1+r.Intn(3)]
+	return bg.scopeWithIDs(ids[:1+r.Intn(3)], depth)
+}
+
+func (bg *nsBehGen) scopeWithIDs(ids []string, depth int) *hx.Ty {
 	t := &hx.Ty{T: "scope", Root: ids[0]}
 	for _, id := range ids {
 		t.Objs = append(t.Objs, hx.NamedObj{ID: id, Ty: bg.object(id, depth, ids)})
@@ -718,8 +729,18 @@ func (bg *nsBehGen) ty(depth int, ids []string) *hx.Ty {
 		return bg.scalar()
 	case x < 62:
 		return bg.ref(ids)
-	case x < 72:
+	case x < 66:
 		return &hx.Ty{T: "list", Item: bg.ty(depth+1, ids), Max: hx.IntP(3)}
+	case x < 72:
+		// a reference directly below a list, a list of lists or a map of lists
+		t := &hx.Ty{T: "list", Item: bg.ref(ids), Max: hx.IntP(3)}
+		switch r.Intn(3) {
+		case 0:
+			t = &hx.Ty{T: "list", Item: t, Max: hx.IntP(3)}
+		case 1:
+			t = &hx.Ty{T: "map", K: &hx.Ty{T: "str"}, V: t}
+		}
+		return t
 	case x < 78:
 		return &hx.Ty{T: "map", K: &hx.Ty{T: "str"}, V: bg.ty(depth+1, ids)}
 	case x < 90:
@@ -745,12 +766,14 @@ func scopeIDs(t *hx.Ty) []string {
 func genNSUniverse(g *hx.Gen) *nsUniverse {
 	bg := &nsBehGen{behGen: behGen{g: g, maxDeep: 1}}
 	u := &nsUniverse{trees: map[string]*hx.Ty{}, bind: map[string]map[string]string{
-		"": {"X": "X", "Y": "Y"}, "X": {"Y": "YX"}, "O": {"X": "X", "Y": "Y"},
+		"": {"X": "X", "Y": "Y"}, "X": {"Y": "YX"}, "X2": {"Y": "YX"},
 	}}
 	u.trees["YX"] = bg.scope(1)
 	u.trees["Y"] = bg.scope(1)
 	bg.foreign = map[string][]string{"Y": scopeIDs(u.trees["YX"])}
 	u.trees["X"] = bg.scope(1)
+	// X2: what some schedules re-bind namespace "X" to: the same IDs, objects of their own shape
+	u.trees["X2"] = bg.scopeWithIDs(scopeIDs(u.trees["X"]), 1)
 	bg.foreign = map[string][]string{"X": scopeIDs(u.trees["X"]), "Y": scopeIDs(u.trees["Y"])}
 	u.trees[""] = bg.scope(1)
 	return u
@@ -771,8 +794,8 @@ func usesNS(t *hx.Ty) map[string]bool {
 
 // nsWorld is one freshly built universe.
 type nsWorld struct {
-	s, x, y, yx *schema.ScopeSchema
-	o           *schema.ScopeSchema // outer scope around s, when embedded
+	s, x, y, yx, x2 *schema.ScopeSchema
+	o               *schema.ScopeSchema // outer scope around s, when embedded
 }
 
 func (u *nsUniverse) buildWorld(sched []string) *nsWorld {
@@ -846,9 +869,13 @@ func (u *nsUniverse) buildOuter(embed int, s *schema.ScopeSchema) *schema.ScopeS
 // emitAgainst records one case whose schema (for the model) is `model`, and whose implementation
 // result comes from running the operation on the as-is schema `impl`.
 func (s *sink) emitAgainst(op string, model *hx.Ty, impl schema.Type, v *hx.Val, goVal any, useGo bool, note string) (hx.Result, int, any) {
+	return s.emitAgainstCmp(op, model, impl, v, goVal, useGo, "class", note)
+}
+
+func (s *sink) emitAgainstCmp(op string, model *hx.Ty, impl schema.Type, v *hx.Val, goVal any, useGo bool, cmp, note string) (hx.Result, int, any) {
 	s.nextID++
 	id := s.nextID
-	c := hx.Case{ID: id, Op: op, Schema: model, V: v, Ext: hx.MkExt(model, v), Fuel: 400, Cmp: "class", Note: note}
+	c := hx.Case{ID: id, Op: op, Schema: model, V: v, Ext: hx.MkExt(model, v), Fuel: 400, Cmp: cmp, Note: note}
 	b, err := json.Marshal(c)
 	if err != nil {
 		panic(err)
@@ -878,7 +905,7 @@ var completeSchedules = func() [][]string {
 	for _, sc := range schedules {
 		hasX, hasY := false, false
 		for _, sy := range sc {
-			hasX = hasX || sy == "X"
+			hasX = hasX || sy == "X" || sy == "X2"
 			hasY = hasY || sy == "Y"
 		}
 		if hasX && hasY {
@@ -889,14 +916,57 @@ var completeSchedules = func() [][]string {
 }()
 var nsCursor int
 
+// complete schedules that bind namespace "X" to both of its candidate scopes
+var rebindSchedules = func() [][]string {
+	var out [][]string
+	for _, sc := range completeSchedules {
+		a, b := false, false
+		for _, sy := range sc {
+			a = a || sy == "X"
+			b = b || sy == "X2"
+		}
+		if a && b {
+			out = append(out, sc)
+		}
+	}
+	return out
+}()
+
 func groupNSBehave(s *sink, g *hx.Gen) {
 	r := g.R
 	u := genNSUniverse(g)
-	inlS := u.lexInline(u.trees[""], "")
 	inlX := u.lexInline(u.trees["X"], "X")
 	for k := 0; k < 3; k++ {
 		sched := completeSchedules[nsCursor%len(completeSchedules)]
+		if k == 1 {
+			// every universe also sees a schedule that re-binds namespace "X"
+			sched = rebindSchedules[nsCursor%len(rebindSchedules)]
+		}
 		nsCursor++
+		// the LAST binding of namespace "X" is what every reference into it denotes
+		u.bind[""]["X"] = "X"
+		rebound := false
+		for _, sy := range sched {
+			if sy == "X" || sy == "X2" {
+				if u.bind[""]["X"] != sy {
+					rebound = true
+				}
+				u.bind[""]["X"] = sy
+			}
+		}
+		inlS := u.lexInline(u.trees[""], "")
+		// inputs made for the OTHER binding tell a stale link from a current one
+		other := "X"
+		if u.bind[""]["X"] == "X" {
+			other = "X2"
+		}
+		last := u.bind[""]["X"]
+		u.bind[""]["X"] = other
+		inlOther := u.lexInline(u.trees[""], "")
+		u.bind[""]["X"] = last
+		if rebound {
+			s.stats["nsbehave:rebound"]++
+		}
 		embed := 0
 		cut := 0
 		if r.Intn(3) == 0 {
@@ -929,10 +999,18 @@ func groupNSBehave(s *sink, g *hx.Gen) {
 			s.stats["nsbehave:not-fully-linked"]++
 			continue
 		}
-		compare := func(impl schema.Type, model *hx.Ty, what string) {
+		compare := func(impl schema.Type, model *hx.Ty, altModel *hx.Ty, what string) {
 			var vals []*hx.Val
 			for i := 0; i < 4; i++ {
 				vals = append(vals, g.Value(model, hx.Env{}, 0))
+			}
+			if altModel != nil {
+				for i := 0; i < 2; i++ {
+					vals = append(vals, g.Value(altModel, hx.Env{}, 0))
+				}
+				if v := deepValue(g, altModel, nil, 5); v != nil {
+					vals = append(vals, v)
+				}
 			}
 			if v := deepValue(g, model, nil, 6); v != nil {
 				vals = append(vals, v)
@@ -960,23 +1038,36 @@ func groupNSBehave(s *sink, g *hx.Gen) {
 						s.finding(Finding{Prop: "C14", What: op + " of " + what + " after schedule " + note + " differs from the lexically inlined tree", Cases: []int{i1}, Schema: model, Input: nat, Detail: []string{xa.JSON(), xb.JSON()}})
 					}
 				}
-				if nodesOf(v) <= 120 {
-					cs := hx.Corruptions(model, v, hx.Env{})
-					if len(cs) > 2 {
+				// exactly one fault planted in an accepted value: same verdict (C14) and the rejection
+				// must name the same element - references add no path segment (C17)
+				faults := func(op string, base *hx.Val, k int) {
+					if nodesOf(base) > 120 || typedMapDepth(base) > 8 {
+						return
+					}
+					cs := hx.Corruptions(model, base, hx.Env{})
+					if len(cs) > k {
 						r.Shuffle(len(cs), func(i, j int) { cs[i], cs[j] = cs[j], cs[i] })
-						cs = cs[:2]
+						cs = cs[:k]
 					}
 					for _, c := range cs {
 						if !canBuild(c.V) {
 							continue
 						}
-						fa, idf, _ := s.emitAgainst("U", model, impl, c.V, nil, false, note+":"+what+":fault")
-						fb := hx.Guard(func() hx.Result { rr, _ := hx.RunOpRaw("U", model.Build(), c.V.ToGo()); return rr })
+						fa, idf, _ := s.emitAgainstCmp(op, model, impl, c.V, nil, false, "path", note+":"+what+":"+op+"-fault:"+c.What)
+						fb := hx.Guard(func() hx.Result { rr, _ := hx.RunOpRaw(op, model.Build(), c.V.ToGo()); return rr })
 						if !sameResult(fa, fb) {
-							s.finding(Finding{Prop: "C14", What: "Unserialize (faulted input) of " + what + " after schedule " + note + " differs from the lexically inlined tree", Cases: []int{idf}, Schema: model, Input: c.V, Detail: []string{fa.JSON(), fb.JSON()}})
+							s.finding(Finding{Prop: "C14", What: op + " (faulted input) of " + what + " after schedule " + note + " differs from the lexically inlined tree", Cases: []int{idf}, Schema: model, Input: c.V, Detail: []string{fa.JSON(), fb.JSON()}})
+							continue
+						}
+						s.stats["nsbehave:fault:"+op+":"+fa.R]++
+						if fa.R == "err" && !sameErrPath(fa, fb) {
+							s.finding(Finding{Prop: "C17", What: op + " of " + what + ": the rejection of a single fault (" + c.What + ") below a reference carries another path than the same tree with the references inlined (references add no path segment)", Cases: []int{idf}, Schema: model, Input: c.V,
+								Detail: []string{"planted at " + pathText(c.Path), "with references: " + fa.JSON(), "inlined: " + fb.JSON()}})
 						}
 					}
 				}
+				faults("U", v, 3)
+				faults("V", nat, 2)
 			}
 		}
 		// values that SET disabled properties (made with the twin schema in which nothing is disabled)
@@ -1015,11 +1106,18 @@ func groupNSBehave(s *sink, g *hx.Gen) {
 				run("S", hx.Enc(outE), outE, true)
 			}
 		}
-		compare(impl, model, "the tree under test")
+		var alt *hx.Ty
+		if rebound {
+			alt = inlOther
+			if embed != 0 {
+				alt = u.outer(embed, inlOther)
+			}
+		}
+		compare(impl, model, alt, "the tree under test")
 		compareDisabled(impl, model, "the tree under test")
 		compareDisabled(w.x, inlX, "foreign scope X")
 		// the foreign scope, used on its own, must still be what it was
-		compare(w.x, inlX, "foreign scope X")
+		compare(w.x, inlX, nil, "foreign scope X")
 	}
 }
 
@@ -1036,6 +1134,8 @@ func (u *nsUniverse) buildWorldEmbedded(sched []string, embed, cut int) *nsWorld
 	w.y = b.build(u.trees["Y"]).(*schema.ScopeSchema)
 	w.x = b.build(u.trees["X"]).(*schema.ScopeSchema)
 	w.x.ApplyNamespace(w.yx.Objects(), "Y")
+	w.x2 = b.build(u.trees["X2"]).(*schema.ScopeSchema)
+	w.x2.ApplyNamespace(w.yx.Objects(), "Y")
 	w.s = b.build(u.trees[""]).(*schema.ScopeSchema)
 	apply := func(t *schema.ScopeSchema, sy string) {
 		switch sy {
@@ -1043,6 +1143,8 @@ func (u *nsUniverse) buildWorldEmbedded(sched []string, embed, cut int) *nsWorld
 			t.ApplySelf()
 		case "X":
 			t.ApplyNamespace(w.x.Objects(), "X")
+		case "X2":
+			t.ApplyNamespace(w.x2.Objects(), "X")
 		case "Y":
 			t.ApplyNamespace(w.y.Objects(), "Y")
 		}
@@ -1121,4 +1223,12 @@ func replayRefs(s *sink, path string) {
 			s.emit(c.Op, c.Schema, c.V, nil, false, c.Cmp, c.Note)
 		}
 	}
+}
+
+// sameErrPath: two rejections agree on being a ConstraintError and on its path (the "{oneof[k]}"
+// marker that only Validate inserts is not a position).
+func sameErrPath(a, b hx.Result) bool {
+	ca := a.C != nil && *a.C
+	cb := b.C != nil && *b.C
+	return ca == cb && samePath(stripMarkers(a.Path), stripMarkers(b.Path))
 }
